@@ -19,7 +19,7 @@ from specs import families as _families
 UNITS = _families.with_families('C01', UNITS)
 BOUNDED = [
     {'name': 'C01.e2e', 'script': 'bounded/c01_e2e.py', 'timeout': 1200,
-     'bound': '<= 4 files; sizes from the boundary family around alignment 4, min, max, 2*max (max <= 64); '
+     'bound': 'sibling names that look like scratch files (X, X.part, X.tmp, X~, .X.swp) and unrelated pre-existing files of such names next to every restored file; <= 4 files; sizes from the boundary family around alignment 4, min, max, 2*max (max <= 64); '
               'argument lists with repeats/overlaps/symlinks; pre-existing targets absent/shorter/equal/longer; '
               'encrypted x {aes_gcm, chacha20} x {blake2b, sha2, sha3}; concurrency 1,2,5; thorough adds 600 seeded random cases. '
               'The 16 MiB read piece of _stream_files is NOT reached (a closure default that cannot be shrunk without editing /repo).; two cases on a SLOW backend (40-60 ms per stream upload) with more chunks than the producer/worker queue holds'},
